@@ -140,8 +140,19 @@ struct StaticCastOverflowImpl<Source, Dest, OverflowSituation::FLOAT_TO_ANYTHING
         // this would have been categorized as `DEST_BOUNDS_CONTAIN_SOURCE_BOUNDS` rather than
         // `FLOAT_TO_ANYTHING`.
         return (x < static_cast<Source>(std::numeric_limits<Dest>::lowest())) ||
-               (x > static_cast<Source>(std::numeric_limits<Dest>::max()));
+               (x > static_cast<Source>(std::numeric_limits<Dest>::max())) ||
+               is_at_or_beyond_integral_limit(x, std::is_integral<Dest>{});
     }
+
+ private:
+    // The max value of an integral `Dest` is `2^N - 1`.  When `Source` cannot represent this
+    // exactly, the cast above rounds it _up_ to `2^N`, which is itself already out of range for
+    // `Dest`.  Therefore, we also compare against `2^N`, which we can always compute exactly.
+    static constexpr bool is_at_or_beyond_integral_limit(Source x, std::true_type) {
+        return x >= static_cast<Source>(2) *
+                        static_cast<Source>(std::numeric_limits<Dest>::max() / 2 + 1);
+    }
+    static constexpr bool is_at_or_beyond_integral_limit(Source, std::false_type) { return false; }
 };
 
 ////////////////////////////////////////////////////////////////////////////////////////////////////
